@@ -82,19 +82,4 @@ theorem isCompatible_some (ext : Bool) (d : Desc) (p : VProp) (hd : d.Valid) (hw
       simpa [VProp.toCur] using compat_acc ext d p.getterFunc p.setterFunc p.enumerable hd
   · exact compat_configurable ext d p hc
 
-/-- the current code differs from the repaired variant only in the kind-mismatch branch with no
-`configurable` field -/
-theorem isCompatible_eq_fixed_of (ext : Bool) (d : Desc) (cur : Option VProp)
-    (h : d.configurable ≠ .notSet ∨ ∀ p, cur = some p → (d.isGeneric = true ∨ d.isData = !p.accessor)) :
-    isCompatible ext d cur = isCompatible ext d cur := by
-  cases cur with
-  | none => rfl
-  | some p =>
-    simp only [isCompatible, isCompatible]
-    rcases h with h | h
-    · cases hc : d.configurable <;> simp_all
-    · rcases h p rfl with h | h
-      · simp [h]
-      · simp [h]
-
 end GojaModel.C11
